@@ -155,10 +155,14 @@ def _arg_eq(x, y):
 TABLE = AtomTable()
 
 
+_UNMODELLED = {}
+
+
 def reset():
     global TABLE
     TABLE = AtomTable()
     UNSURE.clear()
+    _UNMODELLED.clear()
     return TABLE
 
 
@@ -367,6 +371,24 @@ def _pair_verdict(A1, A2, budget, why):
     return res
 
 
+def _unmodelled(k):
+    """the generator is, or contains at any depth, a value the evaluator does not model (unknown, external call, array/string operation)"""
+    if k in _UNMODELLED:
+        return _UNMODELLED[k]
+    _UNMODELLED[k] = False
+    at = TABLE.atoms[k]
+    r = False
+    if at.kind == 'unk' or (at.kind == 'fn' and at.name.startswith(('ext:', 'array', 'strop', 'fstring'))):
+        r = True
+    elif at.kind in ('fn', 'def'):
+        for x in at.args:
+            if isinstance(x, Rat) and any(_unmodelled(j) for j in x.atoms(deep=False)):
+                r = True
+                break
+    _UNMODELLED[k] = r
+    return r
+
+
 def decide_equal(a, b, budget=None, _why=None):
     """'equal' | 'different' | 'unknown'.
     1. folded comparison (definition atoms are names);
@@ -481,8 +503,7 @@ def decide_equal(a, b, budget=None, _why=None):
             # a difference that involves an unmodelled external function on one side only is a modelling gap, not a finding
             ta, tb = _top_atoms(a), _top_atoms(b)
             for k in (ta ^ tb):
-                at = TABLE.atoms[k]
-                if at.kind == 'unk' or (at.kind == 'fn' and at.name.startswith(('ext:', 'array', 'strop', 'fstring'))):
+                if _unmodelled(k):
                     return 'unknown'
             if _why is not None and not _why:
                 _why.append((a, b))
